@@ -68,7 +68,7 @@ func renderOperand(e ast.Expr, prec int, right bool, sp map[*ast.Binary]string) 
 // C10: operators bind with the specified precedence and associate to the left.
 func TestC10_Precedence(t *testing.T) {
 	c := collector("C10", "precedence")
-	rapid.Check(t, func(t *rapid.T) {
+	check(t, func(t *rapid.T) {
 		o1 := gen.Pick(t, "op1", c10Ops)
 		o2 := gen.Pick(t, "op2", c10Ops)
 		vals := make([]jv.Val, 3)
@@ -80,7 +80,18 @@ func TestC10_Precedence(t *testing.T) {
 				t.Fatalf("HARNESS-BUG: %v", err)
 			}
 			vals[i] = v
-			switch rapid.IntRange(0, 5).Draw(t, "atomkind-"+name) {
+			switch rapid.IntRange(0, 6).Draw(t, "atomkind-"+name) {
+			case 6:
+				// an operand without a left-hand side: it applies to the
+				// current node, which is the piped value on the right of a
+				// pipe and the document elsewhere
+				ms = append(ms, jv.Member{K: name, V: v})
+				st := gen.Pick(t, "bare-"+name, [][]ast.Step{
+					{{Kind: ast.SIndex, Index: 0}}, {{Kind: ast.SIndex, Index: -1}}, {{Kind: ast.SIndex, Index: 1}}, {{Kind: ast.SSlice, Start: ast.I64(1)}}, {{Kind: ast.SSlice, Start: ast.I64(0), Stop: ast.I64(1)}},
+					{{Kind: ast.SListStar}}, {{Kind: ast.SFlatten}}, {{Kind: ast.SFilter, Cond: ast.Cur()}}, {{Kind: ast.SIndex, Index: 0}, {Kind: ast.SField, Name: "a"}}, {{Kind: ast.SIndex, Index: 0}, {Kind: ast.SIndex, Index: 0}},
+					{{Kind: ast.SSlice, Stride: ast.I64(-1)}}, {{Kind: ast.SListStar}, {Kind: ast.SIndex, Index: 0}},
+				})
+				atoms[i] = &ast.Chain{Head: ast.Head{Kind: ast.HImplicit}, Steps: st}
 			case 0:
 				atoms[i] = ast.Lit(v)
 			case 1, 2:
